@@ -489,7 +489,8 @@ def catsort_jobs(Job, cfg=CFG_NDEBUG, tier="quick"):
                 defines=list(cfg[1]), extract=ext(g), tier=tier)]
 
 
-SPACE_GROUP = ["sector_count", "CatalogEntry_metadata_byte", "CatalogEntry_metadata_word", "CatalogEntry_start_sector",
+SPACE_GROUP = ["sector_count", "CatalogEntry_metadata_byte", "CatalogEntry_metadata_word", "CatalogEntry_start_sector", "CatalogEntry_file_length", "CatalogEntry_last_sector",
+               "space_entry_gap", "Catalog_map_sectors",
                "catalog_sectors_for_format", "data_sectors_reserved_for_catalog", "space_maybe_gap", "space_add_initial_gap"]
 
 
@@ -499,6 +500,8 @@ def space_jobs(Job, cfg=CFG_NDEBUG, tier="quick"):
     return [J("catalog_sectors_for_format", "h_cat_sectors", ["catalog_sectors_for_format"]),
             J("data_sectors_reserved_for_catalog", "h_reserved", ["data_sectors_reserved_for_catalog"], replace=["catalog_sectors_for_format"]),
             J("space_maybe_gap", "h_maybe_gap", ["space_maybe_gap"]),
+            J("space_entry_gap", "h_entry_gap", ["space_entry_gap"], replace=["space_maybe_gap", "CatalogEntry_last_sector", "CatalogEntry_start_sector", "CatalogEntry_file_length"]),
+            J("catalog_map_sectors", "h_map_sectors", ["Catalog_map_sectors"], replace=["CatalogEntry_last_sector", "CatalogEntry_start_sector", "CatalogEntry_file_length", "sector_count"], loops=True),
             J("space_add_initial_gap", "h_add_initial_gap", ["space_add_initial_gap"],
               replace=["space_maybe_gap", "data_sectors_reserved_for_catalog", "catalog_sectors_for_format", "CatalogEntry_start_sector"])]
 
